@@ -890,7 +890,8 @@ class Exec:
                 return mk("sliceiter", sl[0], sl[1], sl[2], 0)
             return None
         a0 = self.deref_value(st, args[0]) if args else None
-        if tag(a0) != "sliceiter" and not (base.startswith("core::option::Option::<T>::unwrap") or base.startswith("core::option::Option::<T>::expect")):
+        if tag(a0) != "sliceiter" and not (base.startswith("core::option::Option::<T>::unwrap") or base.startswith("core::option::Option::<T>::expect")
+                                           or base.startswith("core::mem::replace") or base.startswith("core::mem::swap")):
             return None
         if base.startswith("core::iter::Iterator::rev") and len(args) == 1:
             return mk("sliceiter", a0[1], a0[2], a0[3], 1 - a0[4])
@@ -927,6 +928,16 @@ class Exec:
                 el = self.index(carr, mk_const("usize", i))
                 acc = _subst_closure(leaf[1], clo, acc, el)
             return acc
+        if base.startswith("core::mem::replace") and len(raw_args) == 2 and tag(raw_args[0]) == "ref":
+            ra = raw_args[0]
+            old = self.load(st, ra[1], ra[2])
+            self.store_to(st, ra[1], tuple(ra[2]), raw_args[1])
+            return old
+        if base.startswith("core::mem::swap") and len(raw_args) == 2 and tag(raw_args[0]) == "ref" and tag(raw_args[1]) == "ref":
+            ra, rb = raw_args
+            va = self.load(st, ra[1], ra[2]); vb = self.load(st, rb[1], rb[2])
+            self.store_to(st, ra[1], tuple(ra[2]), vb); self.store_to(st, rb[1], tuple(rb[2]), va)
+            return mk("unit")
         if base.startswith("core::option::Option::<T>::unwrap") or base.startswith("core::option::Option::<T>::expect"):
             ra = raw_args[0]
             v = ra if tag(ra) == "agg" else self.deref_value(st, ra)
@@ -957,6 +968,15 @@ class Exec:
         if base in self.FMA_NAMES:
             a, b, c = [self.deref_value(st, x) for x in args]
             return mk("f", "fma", a, b, c, base)
+        if base == "core::f64::<impl f64>::from_bits" and len(args) == 1:
+            v = self.deref_value(st, args[0])
+            # from_bits(to_bits(x) & 0x7fff_ffff_ffff_ffff) is |x| exactly (libm::fabs)
+            if tag(v) == "i" and v[1] == "bitand" and v[2] == "u64":
+                for x, m in ((v[3], v[4]), (v[4], v[3])):
+                    if is_const(m) and cint(m) == (1 << 63) - 1 and tag(x) == "call" and x[1] == "core::f64::<impl f64>::to_bits" and len(x) == 3:
+                        return mk("call", "libm::fabs", x[2])
+        if base in ("core::f64::<impl f64>::abs",) and len(args) == 1:
+            return mk("call", "libm::fabs", self.deref_value(st, args[0]))
         if base == "<f64 as core::default::Default>::default":
             return f64c(0.0)
         if base == "core::f64::<impl f64>::recip":
